@@ -28,7 +28,7 @@ vars == <<stage, items>>
 (* ------------------------------ items ------------------------------------------------------------ *)
 (* k: "data" "bss" "ref" "lref" "expr" "str" "proto";  nm: named;  t: element / result type;  n: number *)
 (* of elements (data), length (bss) or index into StrPayloads (str);  tg: ref target;  d: displacement;  l1, l2: labels (l2 = 0: none)   *)
-It(k, nm, t, n, tg, d, l1, l2) == [k |-> k, nm |-> nm, t |-> t, n |-> n, tg |-> tg, d |-> d, l1 |-> l1, l2 |-> l2]
+It(k, nm, t, n, tg, d, l1, l2) == [k |-> k, nm |-> nm, t |-> t, n |-> n, tg |-> tg, d |-> d, l1 |-> l1, l2 |-> l2, via |-> ""]
 Types == {"i8", "u8", "i16", "u16", "i32", "u32", "i64", "u64", "f", "d", "ld", "p"}
 TSize(t) == CASE t \in {"i8", "u8"} -> 1 [] t \in {"i16", "u16"} -> 2 [] t \in {"i32", "u32", "f"} -> 4
               [] t \in {"i64", "u64", "d", "p"} -> 8 [] t = "ld" -> 16
@@ -40,6 +40,12 @@ Bss(ns) == {It("bss", nm, "", n, "", 0, 0, 0) : nm \in BOOLEAN, n \in ns}
 (* must be named), ext = an import bound by MIR_load_external, mod = an import bound to a data item exported by  *)
 (* a module loaded before, func = a function of the module                                                       *)
 Ref(tds) == {It("ref", nm, "", 0, td[1], td[2], 0, 0) : nm \in BOOLEAN, td \in tds}
+(* how the (named) neighbour a ref points to is declared before the ref and which declaration the ref goes through:   *)
+(*   ""         prev: the definition itself (it comes first); next: `forward x` only, through the forward item          *)
+(*   "fwd_exp"  `forward x` then `export x`, through the forward item     "exp_fwd"  `export x` then `forward x`, same *)
+(*   "exp"      `export x` only, through the export item                                                               *)
+(* the declarations stand at the start of the module, the definition x: ... at its place in the sequence               *)
+RefVia(tdvs) == {[It("ref", nm, "", 0, td[1], td[2], 0, 0) EXCEPT !.via = td[3]] : nm \in BOOLEAN, td \in tdvs}
 LRef(ls) == {It("lref", nm, "", 0, "", l[3], l[1], l[2]) : nm \in BOOLEAN, l \in ls}
 Expr(ts) == {It("expr", nm, t, 0, "", 0, 0, 0) : nm \in BOOLEAN, t \in ts}
 Proto == It("proto", TRUE, "", 0, "", 0, 0, 0)         \* any non-data item ends a section
@@ -48,20 +54,23 @@ StrPayloads == << <<>>, <<0>>, <<120>>, <<0, 98, 99>>, <<97, 0, 99>>, <<97, 98, 
                   <<97, 98, 0, 99, 100>>, <<0, 0, 97, 0, 0>>, <<97, 98, 99, 100, 0>>, [j \in 1..256 |-> j - 1] >>
 Str(ids, nms) == {It("str", nm, "", n, "", 0, 0, 0) : nm \in nms, n \in ids}
 
+RefViaAll == RefVia({<<"next", 5, "fwd_exp">>, <<"next", -3, "exp">>, <<"next", 0, "exp_fwd">>, <<"prev", 5, "exp">>, <<"prev", 0, "fwd_exp">>})
 AlphaFull ==
   Data(Types, {0, 1, 3}) \cup Bss({0, 1, 9})
   \cup Ref({<<"prev", 0>>, <<"prev", 5>>, <<"next", 0>>, <<"next", -3>>, <<"ext", 5>>, <<"mod", -3>>, <<"func", 0>>, <<"func", 5>>})
+  \cup RefViaAll
   \cup LRef({<<1, 0, 0>>, <<2, 0, 7>>, <<3, 1, 0>>, <<1, 2, -4>>})
   \cup Expr({"i8", "i16", "i32", "i64", "f", "d", "ld"}) \cup {Proto}
   \cup Str(1..9, BOOLEAN) \cup Str({10}, {TRUE})
 AlphaWide ==      \* every element type once, the three lengths for three sizes, everything else as in AlphaFull
-  Data(Types, {1}) \cup Data({"i8", "i16", "ld"}, {0, 3}) \cup (AlphaFull \ (Data(Types, {0, 1, 3}) \cup Str(1..10, BOOLEAN)))
-  \cup Str({1, 7}, BOOLEAN)
+  ((Data(Types, {1}) \cup Data({"i8", "i16", "ld"}, {0, 3}) \cup (AlphaFull \ (Data(Types, {0, 1, 3}) \cup Str(1..10, BOOLEAN)))
+    \cup Str({1, 7}, BOOLEAN)) \ {r \in RefViaAll : r.nm \/ r.via = "exp_fwd"})
 AlphaMid ==
   {It("data", nm, t, n, "", 0, 0, 0) : nm \in BOOLEAN, t \in {"i8"}, n \in {1}}
   \cup {It("data", nm, "i16", 3, "", 0, 0, 0) : nm \in BOOLEAN} \cup {It("data", nm, "i64", 0, "", 0, 0, 0) : nm \in BOOLEAN}
   \cup {It("data", nm, "ld", 1, "", 0, 0, 0) : nm \in BOOLEAN}
   \cup Bss({0, 9}) \cup Ref({<<"prev", 5>>, <<"next", 0>>}) \cup LRef({<<2, 1, 7>>}) \cup Expr({"i32"}) \cup {Proto}
+  \cup {[It("ref", FALSE, "", 0, "next", 5, 0, 0) EXCEPT !.via = "fwd_exp"]}
   \cup Str({5}, {FALSE})
 AlphaSmall ==
   {It("data", nm, "i8", 3, "", 0, 0, 0) : nm \in BOOLEAN} \cup {It("bss", nm, "", 1, "", 0, 0, 0) : nm \in BOOLEAN}
@@ -119,6 +128,7 @@ Declared(s, i) == IF s[i].k = "str" THEN StrPayloads[s[i].n] ELSE <<>>
 WF(s) == \A i \in 1..Len(s) :
   /\ (s[i].k = "ref" /\ s[i].tg = "prev") => i > 1 /\ IsData(s[i - 1])
   /\ (s[i].k = "ref" /\ s[i].tg = "next") => i < Len(s) /\ IsData(s[i + 1]) /\ s[i + 1].nm
+  /\ (s[i].k = "ref" /\ s[i].tg = "prev" /\ s[i].via # "") => s[i - 1].nm      \* declarations need a name
 HasStr(s) == \E i \in 1..Len(s) : s[i].k = "str"
 
 (* ------------------------------ model properties (checked on every emitted sequence) -------------- *)
@@ -145,7 +155,7 @@ Next == /\ Len(items) < Plan[stage].maxLen
         /\ InPart(items')
         /\ UNCHANGED stage
 
-ItemT(it) == <<it.k, IF it.nm THEN 1 ELSE 0, it.t, it.n, it.tg, it.d, it.l1, it.l2>>
+ItemT(it) == <<it.k, IF it.nm THEN 1 ELSE 0, it.t, it.n, it.tg, it.d, it.l1, it.l2, it.via>>
 Case(s, f) == [form |-> f,
                it |-> [i \in 1..Len(s) |-> ItemT(s[i])],
                lay |-> Layout(s, f),
